@@ -775,10 +775,10 @@ class Fn:
                             nxt = otherwise
                         bb = nxt
                         continue
-                    key = dterm
+                    key, flipped = canon_decision(dterm)
                     choices = [(lab, tt) for (v, tt), lab in zip(targets, labels[:-1])] + [(labels[-1], otherwise)]
                     if key in memo:
-                        choices = [(lab, tt) for lab, tt in choices if memo_compatible(memo[key], lab)]
+                        choices = [(lab, tt) for lab, tt in choices if memo_compatible(memo[key], flip_label(lab) if flipped else lab)]
                     branches = []
                     for lab, tt in choices:
                         if tt not in blocks:
@@ -792,7 +792,7 @@ class Fn:
                         return
                     for lab, tt, e in branches:
                         m2 = dict(memo)
-                        m2[key] = memo_update(memo.get(key), lab)
+                        m2[key] = memo_update(memo.get(key), flip_label(lab) if flipped else lab)
                         ev = Ev('atom', bb, t['line'], held_of(guards), t.get('mac'), term=dterm, outcome=lab)
                         u2 = dict(used)
                         u2[e] = u2.get(e, 0) + 1
@@ -830,6 +830,40 @@ class Fn:
                 return labs + [other]
         labs = [str(v) for v in vals]
         return labs + ['!' + '|'.join(labs)]
+
+
+def flip_label(lab):
+    return {'true': 'false', 'false': 'true'}.get(lab, lab)
+
+
+_CMP_CANON = {'Ne': ('Eq', True), 'Eq': ('Eq', False), 'Ge': ('Lt', True), 'Lt': ('Lt', False), 'Le': ('Gt', True), 'Gt': ('Gt', False)}
+
+
+def canon_decision(t):
+    """(memo key, flipped?) so that `a != b`, `!(a == b)` and `a == b` share one decision"""
+    flipped = False
+    while t[0] == 'un' and t[1] == 'Not':
+        t = t[2]
+        flipped = not flipped
+    if t[0] == 'bin' and t[1] in _CMP_CANON:
+        op, fl = _CMP_CANON[t[1]]
+        l, r = t[2], t[3]
+        if op == 'Eq' and repr(strip_uids(l)) > repr(strip_uids(r)):
+            l, r = r, l
+        return ('cmp', op, l, r), flipped != fl
+    if t[0] == 'call' and len(t[2]) == 2:
+        c = t[1]
+        for nm, (op, fl) in (('::ne', ('Eq', True)), ('::eq', ('Eq', False)), ('::lt', ('Lt', False)), ('::ge', ('Lt', True)), ('::gt', ('Gt', False)), ('::le', ('Gt', True))):
+            if c.endswith(nm) and ('PartialEq' in c or 'PartialOrd' in c or 'cmp' in c):
+                l, r = t[2]
+                if op == 'Eq' and repr(strip_uids(l)) > repr(strip_uids(r)):
+                    l, r = r, l
+                return ('cmp', op, strip_call_uid(l), strip_call_uid(r)), flipped != fl
+    return t, flipped
+
+
+def strip_call_uid(t):
+    return t
 
 
 def memo_compatible(know, lab):
